@@ -58,6 +58,19 @@ pub fn draw_libm() {
     }
 }
 
+/// keep the uninterpreted sqrt within the true function's elementary bounds
+/// max(|a|,|b|) <= sqrt(a^2+b^2) <= |a|+|b|, so that a counterexample (e.g. "ground speed 0") is one the
+/// real libm also produces and replays natively
+pub fn assume_sqrt_bounds(m: &[u32]) {
+    #[cfg(kani)]
+    if let (Some(e), Some(n)) = (tc19_vew(m), tc19_vns(m)) {
+        let (a, b) = (e.abs() as f64, n.abs() as f64);
+        let lo = if a > b { a } else { b };
+        let s = unsafe { SQRT_RET };
+        assume(s >= lo && s <= a + b);
+    }
+}
+
 /// (track, ground speed) the property demands for this frame; `None` = no value
 pub fn expect_velocity(m: &[u32], supersonic: bool) -> (Option<u32>, Option<(u32, u32)>) {
     let (vew, vns) = (tc19_vew(m), tc19_vns(m));
@@ -105,6 +118,7 @@ fn c09_field_velocity() {
     assume(bits(&m, 1, 5) == 17 && bits(&m, 33, 37) == 19);
     let supersonic = any_bool();
     draw_libm();
+    assume_sqrt_bounds(&m);
     let (track, gs) = track_and_groundspeed(&m, supersonic);
     let (wt, wg) = expect_velocity(&m, supersonic);
     vcover!(wt == Some(0) && tc19_vew(&m) == Some(0), "due north");
@@ -142,7 +156,10 @@ fn c09_field_vrate() {
 }
 
 macro_rules! row_tc19 {
-    ($name:ident, $upd:expr) => {
+    ($name:ident, $upd:expr, $st:expr) => {
+        row_tc19!($name, $upd, $st, true);
+    };
+    ($name:ident, $upd:expr, $st:expr, $cmp:expr) => {
         #[cfg_attr(kani, kani::proof)]
         #[cfg_attr(kani, kani::unwind(33))]
         #[cfg_attr(kani, kani::stub(chrono::Utc::now, crate::verif::rt::stub_now))]
@@ -158,10 +175,13 @@ macro_rules! row_tc19 {
             let m = frame28();
             pin_df(&m, 17);
             pin_tc(&m, 19);
-            let st = bits(&m, 38, 40) as u32;
-            assume(st == 1 || st == 2);
+            // the subtype is pinned like DF/TC (one instance per subtype: the default path with both
+            // subtypes in one query takes > 15 min)
+            pin_st(&m, $st);
+            let st: u32 = $st;
             let relaxed = any_bool();
             draw_libm();
+            assume_sqrt_bounds(&m);
             let mut p = any_row();
             let Some((df, icao)) = accepted(&m) else { return };
             p.icao = icao;
@@ -169,8 +189,7 @@ macro_rules! row_tc19 {
             apply(&mut p, &m, df, $upd, relaxed);
             let (wt, wg) = expect_velocity(&m, st == 2);
             let wv = tc19_vrate(&m);
-            vcover!(st == 1 && wt.is_some(), "subsonic");
-            vcover!(st == 2 && wt.is_some() && before.grspeed.is_none(), "supersonic, first velocity");
+            vcover!(wt.is_some() && before.grspeed.is_none(), "first velocity");
             vcover!(wv == Some(-64) && before.vrate == Some(640), "rate change");
             vcover!(wv.is_none() && before.vrate.is_some(), "rate not available on a row that has one");
             vcover!(wv == Some(0) && before.vrate == Some(1280), "levelling off");
@@ -179,17 +198,29 @@ macro_rules! row_tc19 {
             vassert!(p.track == wt, "C09: row track is not the value (or blank for 'no information') of the velocity squitter just applied");
             vassert!(gs_ok(wg, p.grspeed), "C09: row ground speed is not the value (or blank for 'no information') of the velocity squitter just applied");
             vassert!(p.vrate == wv, "C09: row vertical rate is not the value (or blank for 'no information') of the velocity squitter just applied");
-            assert_unchanged_except(&before, &p, F_VRATE | F_VRATE_SRC | F_ALT_GNSS | F_TRACK | F_GS | F_TRACK_SRC | F_BOOK | F_CAP0);
-}
+            if $cmp {
+                assert_unchanged_except(&before, &p, F_VRATE | F_VRATE_SRC | F_ALT_GNSS | F_TRACK | F_GS | F_TRACK_SRC | F_BOOK | F_CAP0);
+            }
+        }
     };
 }
-// @harness name=c09_row_tc19_default props=C09,C11,C19 tier=quick cap=1500 needs=kfmod
-// row step, DEFAULT path: any DF17 TC19 subtype 1/2 squitter on an arbitrary row, -R symbolic: the row's
-// ground speed, track and vertical rate are the values of this frame (blank for 'no information')
-row_tc19!(c09_row_tc19_default, false);
-// @harness name=c09_row_tc19_update props=C09,C11:thorough,C19:thorough tier=quick cap=1500 needs=kfmod
-// row step, -U path: same
-row_tc19!(c09_row_tc19_update, true);
+// @harness name=c09_row_tc19_default_st1 props=C09,C19 tier=quick cap=1500 needs=kfmod
+// row step, DEFAULT path, subtype 1 (subsonic): any such squitter on an arbitrary row, -R symbolic: the row's
+// ground speed, track and vertical rate are the values of this frame (blank for 'no information').
+// (values only; "everything else untouched" for this path is c09_row_tc19_default_st1_full, thorough)
+row_tc19!(c09_row_tc19_default_st1, false, 1, false);
+// @harness name=c09_row_tc19_default_st1_full props=C09,C11,C19 tier=thorough cap=2400 needs=kfmod
+// as above, plus every other field group bit-identical
+row_tc19!(c09_row_tc19_default_st1_full, false, 1, true);
+// @harness name=c09_row_tc19_update_st2 props=C09,C11,C19:thorough tier=quick cap=1500 needs=kfmod
+// row step, -U path, subtype 2 (supersonic, x4), every other field group bit-identical
+row_tc19!(c09_row_tc19_update_st2, true, 2);
+// @harness name=c09_row_tc19_default_st2 props=C09,C11:thorough,C19:thorough tier=thorough cap=1800 needs=kfmod
+// row step, DEFAULT path, subtype 2
+row_tc19!(c09_row_tc19_default_st2, false, 2);
+// @harness name=c09_row_tc19_update_st1 props=C09,C11:thorough,C19:thorough tier=thorough cap=1800 needs=kfmod
+// row step, -U path, subtype 1
+row_tc19!(c09_row_tc19_update_st1, true, 1);
 
 // @harness props=C09 tier=quick cap=1500 needs=kfmod
 // the TC19 squitter that creates a row: same values
@@ -211,6 +242,7 @@ fn c09_create_tc19() {
     let st = bits(&m, 38, 40) as u32;
     assume(st == 1 || st == 2);
     draw_libm();
+    assume_sqrt_bounds(&m);
     let Some((df, icao)) = accepted(&m) else { return };
     let p = create(&m, df, icao);
     let (wt, wg) = expect_velocity(&m, st == 2);
